@@ -641,7 +641,7 @@ class PySersicMultiPrior(BasePrior):
             properties.set_position_guess((catalog["x"][ind], catalog["y"][ind]))
             try:
                 properties.set_theta_guess(catalog["theta"][ind])
-            except KeyError:
+            except (KeyError, ValueError):  # numpy record arrays raise ValueError for a missing field
                 properties.set_theta_guess(0)
 
             dummy_prior = properties.generate_prior(
